@@ -91,6 +91,50 @@ def swap_coverage(m, f, _depth=0):
                 n = sub[1]
         if n is not None:
             covered.append((off, off + n))
+    # member-by-member exchange through typed temporaries: a.f := (old b.f) and b.f := (old a.f)
+    def ty_size(ty):
+        ty = (ty or '').strip()
+        if ty.endswith('*'):
+            return 8
+        if ty.startswith('i') and ty[1:].isdigit():
+            return (int(ty[1:]) + 7) // 8
+        return {'double': 8, 'float': 4}.get(ty)
+
+    def before(x, y):
+        return (x.block is y.block and x.pos < y.pos) or (x.block is not y.block and f.dominates(x, y))
+    halves = {}
+    for st in f.all_insts():
+        if st.op != 'store':
+            continue
+        a = resolve_addr(f, st.o[1])
+        ra = strip_bitcasts(f, a.root) if isinstance(a.root, str) else a.root
+        if ra not in ('$0', '$1') or a.coff is None:
+            continue
+        v = f.get(strip_bitcasts(f, st.o[0])) if isinstance(st.o[0], str) else None
+        while v is not None and v.op in ('zext', 'trunc') :
+            v = f.get(v.o[0]) if isinstance(v.o[0], str) else None
+        if v is None or v.op != 'load':
+            continue
+        b = resolve_addr(f, v.o[0])
+        rb = strip_bitcasts(f, b.root) if isinstance(b.root, str) else b.root
+        if rb not in ('$0', '$1') or rb == ra or b.coff != a.coff:
+            if rb in ('$0', '$1') and rb != ra and b.coff is not None and b.coff != a.coff:
+                problems.append('the exchange at %s pairs different members of the two objects' % st.loc())
+            continue
+        n = ty_size(v.ty)
+        if n is None:
+            continue
+        halves.setdefault((a.coff, n), {})[ra] = (st, v)
+    for (off, n), h in halves.items():
+        if '$0' in h and '$1' in h:
+            (sa, lb), (sb, la) = h['$0'], h['$1']          # a.f := lb (old b.f) ; b.f := la (old a.f)
+            if before(la, sa) and before(lb, sb):
+                covered.append((off, off + n))
+            else:
+                problems.append('the member at offset %d is overwritten before its old value was read (both objects end up with the same value)' % off)
+        else:
+            who = 'first' if '$0' in h else 'second'
+            problems.append('the member at offset %d of the %s object receives the other object\'s value but not vice versa' % (off, who))
     leaves = _leaf_ranges(mod, sname) or [(0, sd.get('size', 0))]
     missing = []
     for lo, hi in leaves:
